@@ -323,6 +323,7 @@ mod mmv_pure {
                 cut.sync();
                 String::new()
             }
+            Op::ArmFault { .. } => String::new(),
         };
         // the driver's own sync() belongs to the base ops only: an extra observation must not
         // bring any maintenance with it
